@@ -79,6 +79,10 @@ type Spec struct {
 	// Hold: jobs (keys) that begin but do not end before the restart: they are still
 	// running when mrp exits and die with it
 	Hold []string `json:"hold"`
+	// StaleEntries: for these jobs, while they run, a `complete` notification appears in the
+	// journal that carries another attempt's id (what a job of a superseded attempt, still
+	// alive somewhere, writes)
+	StaleEntries []string `json:"stale_entries"`
 	// Bare: stage code writes the files its outputs name and nothing else (no unreferenced
 	// files, nothing in the temporary directory): a fork may then have nothing to reclaim
 	Bare bool `json:"bare"`
@@ -885,6 +889,22 @@ func (d *Driver) begin(j *job) {
 	}
 	writeFile(path.Join(j.vj.MetadataPath, "_log"), []byte("log\n"))
 	d.journal(j, "log")
+	for _, k := range d.spec.StaleEntries {
+		if k == j.key {
+			if m := staleRe.FindStringIndex(j.vj.JournalFile); m != nil {
+				pre := ""
+				switch j.vj.ShellName {
+				case "split":
+					pre = "split_"
+				case "join":
+					pre = "join_"
+				}
+				f := j.vj.JournalFile[:m[0]] + ".u0000000001" + j.vj.JournalFile[m[1]:] + "." + pre + "complete"
+				writeFile(f, []byte("x"))
+				d.tr.Emit("Note", "text", "stale notification "+path.Base(f)+" while "+j.key+" runs")
+			}
+		}
+	}
 }
 
 // the join sees, per chunk, the chunk's declared outputs (possibly among others)
@@ -1920,6 +1940,7 @@ func (d *Driver) calleeOf(callPath []string) string {
 // metadata; the script of a job must name that job's own directories (working
 // directory, stdout, stderr, the metadata path handed to the command) and nobody else's
 // - jobs are rendered concurrently when --maxjobs is set.
+var staleRe = regexp.MustCompile(`\.u[0-9a-f]{10}`)
 var tmpdirRe = regexp.MustCompile(`TMPDIR="([^"]*)"`)
 
 func (d *Driver) checkJobScripts() {
